@@ -333,6 +333,9 @@ def index_checks(rep: Report, prog: Program) -> None:
               L = u.value.id
               unode = cfg.node_of(enclosing_stmt(f, u))
               raises = {n for n, nd in cfg.nodes.items() if nd.kind == 'raise'}
+              from ..util import check_raise_type
+              for rn in sorted(r_ for r_ in raises if r_ in cfg.loop_body.get(hdr, set()) and isinstance(cfg.nodes[r_].stmt, ast.Raise)):
+                  check_raise_type(rep, rule + ' exception type', prog, f, cfg.nodes[rn].stmt, 'ValueError', f"invalid {iv}")
               handlers = [b for b, l in cfg.succ[unode] if l == 'exc']
               bad = []
               for v in (-2, -1, 0, 1, 2, 3):
